@@ -79,6 +79,8 @@ Section Main.
   Variable eq64 : F64 -> F64 -> bool.
   Variable fin32 : F32 -> bool.
   Variable fin64 : F64 -> bool.
+  (* the variant of primitive::load (Model.lit_by_value, Model.fmt_by_value): any *)
+  Variables lv fv : bool.
 
   (* the float interface: what the theorems assume of printing and reading *)
   Hypothesis print32_shape : forall x, fin32 x = true -> sci_shape (print32 x) = true.
@@ -90,11 +92,11 @@ Section Main.
 
   Notation prim := (prim F32 F64).
   Notation json := (json F32 F64).
-  Notation prim_load := (prim_load F32 F64 parse32 parse64).
-  Notation load := (load F32 F64 parse32 parse64).
+  Notation prim_load := (prim_load F32 F64 parse32 parse64 lv fv).
+  Notation load := (load F32 F64 parse32 parse64 lv fv).
   Notation prim_toString := (prim_toString F32 F64 print32 print64).
   Notation D := (dump F32 F64 print32 print64 true).
-  Notation R := (reparsed F32 F64 print32 print64).
+  Notation R := (reparsed F32 F64 print32 print64 lv).
   Notation WF := (wf F32 F64 fin32 fin64).
 
   Lemma load_S : forall f s,
@@ -166,7 +168,7 @@ Section Main.
 
   Lemma load_int : forall f Wp k v r, all_ws Wp -> k <> KBool -> in_kind k v = true -> stopr r ->
     load (S f) (Wp ++ prim_toString (PInt k v) ++ r) =
-      Ok (JNum (reparsed_prim F32 F64 (PInt k v)) (prim_toString (PInt k v))) r.
+      Ok (JNum (reparsed_prim F32 F64 lv (PInt k v)) (prim_toString (PInt k v))) r.
   Proof.
     intros f Wp k v r HW Hk Hin Hr.
     destruct (int_text_head k v Hk) as (c & rest & E & Hc).
@@ -191,7 +193,7 @@ Section Main.
     destruct (sci_head _ Hsci) as (c & rest & E & Hc).
     eapply load_number_text; try eassumption.
     - intros n.
-      pose proof (prim_load_sci F32 F64 parse32 parse64 n (print64 x) [] r Hsci (or_introl eq_refl) Hr) as Hpl.
+      pose proof (prim_load_sci F32 F64 parse32 parse64 lv fv n (print64 x) [] r Hsci (or_introl eq_refl) Hr) as Hpl.
       cbn [app] in Hpl. now rewrite parse64_print64 in Hpl by exact Hfin.
     - now apply stopr_nonempty.
   Qed.
@@ -205,7 +207,7 @@ Section Main.
     eapply (load_number_text f Wp (print32 x ++ [102%N]) c (rest ++ [102%N])); try eassumption.
     - now rewrite E.
     - intros n.
-      pose proof (prim_load_sci F32 F64 parse32 parse64 n (print32 x) [102%N] r Hsci (or_intror eq_refl) Hr) as Hpl.
+      pose proof (prim_load_sci F32 F64 parse32 parse64 lv fv n (print32 x) [102%N] r Hsci (or_intror eq_refl) Hr) as Hpl.
       cbv iota in Hpl. rewrite parse32_print32 in Hpl by exact Hfin.
       now rewrite <- app_assoc.
     - now apply stopr_nonempty.
@@ -628,7 +630,7 @@ Section Main.
 
   (* ---------------------------------------------------------------- parse (dump v) *)
   Theorem parse_dump_exact : forall indent v, WF v = true ->
-    parse_at F32 F64 parse32 parse64 (dump_top F32 F64 print32 print64 true indent v) = Ok (R v) [0%N].
+    parse_at F32 F64 parse32 parse64 lv fv (dump_top F32 F64 print32 print64 true indent v) = Ok (R v) [0%N].
   Proof.
     intros indent v Hwf. unfold parse_at, dump_top.
     set (ind := repeat 32%N (Z.to_nat (if 0 <=? indent then indent else 2))).
@@ -640,16 +642,20 @@ Section Main.
 
   (* ---------------------------------------------------------------- reparsed v is equal to v *)
   Lemma prim_equal_reparsed : forall p, prim_defined F32 F64 fin32 fin64 p = true ->
-    prim_equal F32 F64 eq32 eq64 (reparsed_prim F32 F64 p) p = Some true.
+    prim_equal F32 F64 eq32 eq64 (reparsed_prim F32 F64 lv p) p = Some true.
   Proof.
     intros [|k v|x|x] H; cbn [prim_defined] in H; try discriminate.
     - unfold in_kind in H. apply andb_true_iff in H as [H1 H2]. apply Z.leb_le in H1, H2.
-      destruct k; cbn [reparsed_prim is_long prim_equal rank N.ltb N.compare Pos.compare Pos.compare_cont];
-        cbn in H1, H2; f_equal; apply Z.eqb_eq;
+      destruct k; cbn [reparsed_prim is_long]; cbn in H1, H2;
+        try (destruct (lv && negb (Z.abs v <=? 2147483647)));
+        cbn [prim_equal rank N.ltb N.compare Pos.compare Pos.compare_cont];
+        f_equal; apply Z.eqb_eq;
         unfold cast, wrap_s, wrap_u;
         try (destruct (Z.eqb_spec v 0); lia);
         change (2 ^ 64) with 18446744073709551616; change (2 ^ (64 - 1)) with 9223372036854775808;
-        change (2 ^ 32) with 4294967296; change (2 ^ (32 - 1)) with 2147483648; lia.
+        change (2 ^ 32) with 4294967296; change (2 ^ (32 - 1)) with 2147483648;
+        change (2 ^ 16) with 65536; change (2 ^ (16 - 1)) with 32768;
+        change (2 ^ 8) with 256; change (2 ^ (8 - 1)) with 128; lia.
     - cbn. now rewrite eq32_refl.
     - cbn. now rewrite eq64_refl.
   Qed.
@@ -677,13 +683,16 @@ Section Main.
   Qed.
 
   Lemma prim_same_reparsed : forall p, prim_defined F32 F64 fin32 fin64 p = true ->
-    prim_fits F32 F64 p = true ->
-    prim_same F32 F64 eq32 eq64 (reparsed_prim F32 F64 p) p = true.
+    prim_fits F32 F64 lv p = true ->
+    prim_same F32 F64 eq32 eq64 (reparsed_prim F32 F64 lv p) p = true.
   Proof.
     intros [|k v|x|x] H Hfit; cbn [prim_defined] in H; try discriminate.
     - unfold in_kind in H. apply andb_true_iff in H as [H1 H2]. apply Z.leb_le in H1, H2.
-      destruct k; cbn [reparsed_prim is_long prim_same is_boolk Bool.eqb];
-        cbn in H1, H2; cbn [prim_fits] in Hfit; try (apply Z.leb_le in Hfit; cbn in Hfit);
+      destruct k; cbn [reparsed_prim is_long]; cbn in H1, H2; cbn [prim_fits] in Hfit;
+        try (apply Z.leb_le in Hfit; cbn in Hfit);
+        try (destruct lv; cbn [andb orb] in *;
+             [destruct (Z.leb_spec (Z.abs v) 2147483647); cbn [negb] | try (apply Z.leb_le in Hfit; cbn in Hfit)]);
+        cbn [prim_same is_boolk Bool.eqb];
         rewrite andb_true_r; apply Z.eqb_eq;
         unfold cast, wrap_s, wrap_u;
         change (2 ^ 64) with 18446744073709551616; change (2 ^ (64 - 1)) with 9223372036854775808;
@@ -692,7 +701,7 @@ Section Main.
     - cbn. now rewrite eq64_refl.
   Qed.
 
-  Theorem reparsed_same : forall v, WF v = true -> ints_fit F32 F64 v = true ->
+  Theorem reparsed_same : forall v, WF v = true -> ints_fit F32 F64 lv v = true ->
     json_same F32 F64 eq32 eq64 (R v) v = true.
   Proof.
     induction v as [| |p src|s|l IHl|m IHm] using json_ind'; intros Hwf Hfit; cbn [wf] in Hwf; try discriminate.
